@@ -254,7 +254,10 @@ structure QState where
 def purge (p : List (Nat × Nat)) (now : Nat) : List (Nat × Nat) := p.filter (fun x => now < x.2)
 
 def qStep (q : QState) : Ev → QState
-  | .apiOpen _ => { q with isOpen := true, closing := false }
+  | .apiOpen _ =>
+    -- opening a client that is open changes nothing; a client that was closed starts its new session with an empty buffer
+    -- ("a later init() works as on a fresh object": nothing of an earlier session is held or transmitted)
+    if q.isOpen && !q.closing then q else { q with pending := [], isOpen := true, closing := false }
   | .apiClose _ => { q with closing := true }
   | .apiCloseDone _ => { q with isOpen := false, closing := false }
   | .accept s t e _ _ =>
